@@ -1,0 +1,26 @@
+//go:build verif
+// +build verif
+
+package onet
+
+// Accessors for the correspondence harness of property C05 (build tag "verif"
+// only; nothing here is called by the package itself).
+
+// VerifC05HoldTrees takes the lock of the overlay's tree store and returns the
+// function that gives it back. While it is held, a reader goroutine that has
+// popped a message waits in TreeNodeInstance.Tree() (createValueAndVerify),
+// that is between the pop and the test of the channel's capacity and of the
+// closing flag: the harness can let a close or a read of the channel fall
+// there.
+func (o *Overlay) VerifC05HoldTrees() (release func()) {
+	o.treeStorage.Lock()
+	return o.treeStorage.Unlock
+}
+
+// VerifC05QueueState returns the number of messages in the instance's
+// dispatch queue and whether the instance is closing.
+func (n *TreeNodeInstance) VerifC05QueueState() (queued int, closing bool) {
+	n.msgDispatchQueueMutex.Lock()
+	defer n.msgDispatchQueueMutex.Unlock()
+	return len(n.msgDispatchQueue), n.closing
+}
